@@ -53,6 +53,9 @@ pub enum TimerKind {
     Late(u64),
     /// call at the current instant
     Now,
+    /// call m half-RTOs (of the earliest-expiring request) after the earliest armed expiry: lands exactly on later
+    /// slots and on the deadline
+    LateHalfRtos(u8),
 }
 
 #[derive(Clone, Debug, PartialEq, Eq, Hash, Serialize, Deserialize)]
@@ -127,6 +130,8 @@ pub enum Op {
     Send { method: u16, attrs: Vec<RAttr>, small_buf: bool },
     Indication { method: u16, attrs: Vec<RAttr> },
     Advance(u64),
+    /// advance the clock by m half-RTOs of the most recently sent request (aligns later sends with slots of earlier ones)
+    AdvanceHalfRtos(u8),
     Timer(TimerKind),
     Deliver(Reply),
     DeliverRaw(Vec<u8>),
